@@ -314,24 +314,36 @@ Arguments authorized {creds} auth_scheme schemes c.
 (* ================= gate order of ServeHTTP / ServeTCP ================= *)
 Inductive event :=
 | ERespond (status : N)      (* status written to the client, nothing forwarded *)
+| ERedirect (code : N)       (* http.Redirect with the route's code and Location, nothing forwarded *)
 | EUpstream                  (* RoundTrip / net.DialTimeout to the target *)
 | EClose.                    (* TCP: connection closed without a dial *)
 
-Record target := { t_rules : rules; t_auth : str }.
+(* what ServeHTTP reads of the target that Table.Lookup returned.  [t_redirect] = RedirectCode
+   (0 = the route forwards; otherwise 300..399 as validated by addTarget).  For a redirect
+   route Lookup returns a per-request COPY of the table's target (table.go:452-456,
+   `redirect := *target`): same rule map, same auth scheme. *)
+Record target := { t_rules : rules; t_auth : str; t_redirect : N }.
+
+Definition table_lookup_copy (t : target) : target :=
+  if t_redirect t =? 0 then t
+  else {| t_rules := t_rules t; t_auth := t_auth t; t_redirect := t_redirect t |}.
 
 Section Gate.
   Variable parse_ip : str -> option ipaddr.
   Variable split_host : str -> option str.
   Variable creds : Type.
 
-  (* http_proxy.go:99-124 + addHeaders' own SplitHostPort (line 190) *)
+  (* http_proxy.go:99-124, the redirect answer (lines 135-141) + addHeaders' own SplitHostPort;
+     [t] = the table's target for the request (None = no route), looked up through Table.Lookup *)
   Definition serve_http (t : option target) (schemes : scheme_table creds)
              (remote : str) (xff : list str) (c : creds) : list event :=
     match t with
     | None => [ERespond 404]
-    | Some t =>
+    | Some t0 =>
+        let t := table_lookup_copy t0 in
         if access_denied_http parse_ip split_host (t_rules t) remote xff then [ERespond 403] else
         if negb (authorized (t_auth t) schemes c) then [ERespond 401] else
+        if negb (t_redirect t =? 0) then [ERedirect (t_redirect t)] else
         match split_host remote with
         | None => [ERespond 500]                      (* addHeaders: cannot parse RemoteAddr *)
         | Some _ => [EUpstream]
